@@ -175,6 +175,75 @@ fn c17_short_option() {
     kani::cover!(c == 'h');
 }
 
+/// History is byte-transparent for every scalar: push(enc(c)) then Up recalls it.
+#[cfg(feature = "history")]
+#[kani::proof]
+#[kani::unwind(8)]
+fn c17_history_recall() {
+    let c = any_scalar();
+    let mut enc = [0u8; 4];
+    let n = c.encode_utf8(&mut enc).len();
+    let mut h = History::new([0u8; 6]);
+    h.push(as_str(&enc[..n]));
+    match h.next_older() {
+        None => assert!(false),
+        Some(e) => {
+            let eb = e.as_bytes();
+            assert!(eb.len() == n);
+            let mut i = 0;
+            while i < 4 {
+                if i < n {
+                    assert!(eb[i] == enc[i]);
+                }
+                i += 1;
+            }
+        }
+    }
+    assert!(h.next_older().is_none());
+    kani::cover!(n == 4);
+    kani::cover!(n == 1);
+}
+
+/// The `error: unexpected option: -c` line carries every scalar unchanged.
+#[kani::proof]
+#[kani::unwind(24)]
+fn c17_error_line() {
+    use crate::sinks::ExpectSink;
+    use embedded_cli::cli::CliBuilder;
+    let c = any_scalar();
+    let mut enc = [0u8; 4];
+    let n = c.encode_utf8(&mut enc).len();
+    const R: usize = 40;
+    let mut e = [0u8; R];
+    let head = b"$ error: unexpected option: -";
+    let mut l = 0;
+    while l < head.len() {
+        e[l] = head[l];
+        l += 1;
+    }
+    let mut i = 0;
+    while i < 4 {
+        if i < n {
+            e[l] = enc[i];
+            l += 1;
+        }
+        i += 1;
+    }
+    e[l] = b'\r';
+    e[l + 1] = b'\n';
+    l += 2;
+    let mut cli = CliBuilder::default()
+        .writer(ExpectSink::<R>::new(e, l))
+        .command_buffer([0u8; 4])
+        .history_buffer([0u8; 4])
+        .build()
+        .unwrap();
+    cli.__verif_process_error(embedded_cli::service::ParseError::UnexpectedShortOption { name: c }).unwrap();
+    assert!(cli.__verif_writer().ok(), "C17: the option character is printed unchanged");
+    assert!(cli.__verif_writer().pending == 0, "C15: flushed");
+    kani::cover!(n == 3);
+}
+
 /// Reachability twin.
 #[kani::proof]
 #[kani::unwind(6)]
